@@ -9,7 +9,11 @@ MANIFEST = {
             'action_results_fold (over any sequence of result deliveries at most one is accepted), '
             'task_success_final_partial and task_success_final_full_fails (Task.defer resets a finished join: known '
             'finding). Engine level (Mistral.Engine): wf_moves_ok_engine, wf_moves_ok_reachable (induction over every '
-            'event history), success_never_left_engine. Ties: lifecycle stream = EVERY state x EVERY operation on the '
+            'event history), success_never_left_engine. ENGINE COMMANDS INCLUDED (Mistral.Props.C03X over Mistral.Engine.stepX, '
+            'every order of sibling commands): wf_moves_okX (every event changes the workflow state of a started execution by a '
+            'CHAIN of documented moves: pause / fail / succeed commands in on-clauses and commands restored from the backlog on '
+            'resume are further compare-and-swaps inside the same transaction), started_preservedX, wf_moves_okX_reachable '
+            '(every history), final_never_leftX / success_never_leftX (no event, no backlog command leaves a final state). Ties: lifecycle stream = EVERY state x EVERY operation on the '
             'real workflow/task/action objects (exhaustive, ~280 cases); core stream; engine stream with operator '
             'commands (monitors: every committed workflow state change is a documented move, SUCCESS tasks never '
             'change, accepted flag rises at most once, finished executions frozen). STATEMENT GRANULARITY (below one '
@@ -68,7 +72,7 @@ TRUSTED = ['translate/states.py (AST read of states.py, fail closed)', 'harness 
            'translate/race_scripts.py (AST, fail closed); harness/race_driver.py: SQL statement tap, thread-local swap for the '
            'second session; row-lock semantics (a second writer waits until commit) modelled, not executed on sqlite']
 LEAN_MODULES = ['Mistral.Props.C03', 'Mistral.Props.C03Race', 'Mistral.Props.C03RaceCac', 'Mistral.Props.C03RaceAction',
-                'Mistral.Props.C03RaceTask']
+                'Mistral.Props.C03RaceTask', 'Mistral.Props.C03X']
 RACE_CHUNKS = [{'family': 'wf', 'scenarios': ['cacSucceed', 'stopCancel']},
                {'family': 'wf', 'scenarios': ['cacFail', 'stopSuccess']},
                {'family': 'wf', 'scenarios': ['cacCancel', 'stopError', 'resume']},
